@@ -517,6 +517,97 @@ func c16Race(c *ctx, name string, lock int, s storage.Store, n int, key string, 
 	c.w.End()
 }
 
+// ---- a disk that hiccups: one Write of the record delivers a prefix and fails -------------------
+// Put reports the failure, or the record holds exactly the bytes handed over ("reads return the last
+// written bytes"): never a success with other bytes. Both retry policies, both kinds of source.
+
+type c16FlakyFs struct {
+	afero.Fs
+	mu     sync.Mutex
+	failAt int // the failAt-th Write (1-based) fails after delivering `keep` bytes; 0 = never
+	keep   int
+	writes int
+}
+
+type c16FlakyFile struct {
+	afero.File
+	fs *c16FlakyFs
+}
+
+func (f *c16FlakyFs) OpenFile(name string, flag int, perm os.FileMode) (afero.File, error) {
+	file, err := f.Fs.OpenFile(name, flag, perm)
+	if err != nil {
+		return nil, err
+	}
+	return &c16FlakyFile{File: file, fs: f}, nil
+}
+
+func (f *c16FlakyFile) Write(p []byte) (int, error) {
+	f.fs.mu.Lock()
+	f.fs.writes++
+	hit := f.fs.failAt != 0 && f.fs.writes == f.fs.failAt
+	keep := f.fs.keep
+	f.fs.mu.Unlock()
+	if hit {
+		if keep > len(p) {
+			keep = len(p)
+		}
+		n, _ := f.File.Write(p[:keep])
+		return n, errors.New("injected: transient write error")
+	}
+	return f.File.Write(p)
+}
+
+func c16Flaky(c *ctx) {
+	n := 24
+	if c.thorough() {
+		n = 120
+	}
+	r := tr.NewRng(c.seed*131 + 16)
+	for i := 0; i < n; i++ {
+		retry := i%4 == 0 // the default policy backs off for half a second and more: a few cases only
+		size := r.Pick(1, 10, 100, 5000, 40000, 70000)
+		val := tr.GenBytes(uint64(i+1), size)
+		ffs := &c16FlakyFs{Fs: afero.NewMemMapFs(), failAt: 1 + r.Intn(2), keep: r.Intn(size + 1)}
+		st := localfs.New(ffs, localfs.WithRetry(retry), localfs.WithLogger(zap.NewNop()))
+		prior := r.Intn(3) == 0
+		if prior {
+			ffs.failAt = 0
+			_ = st.Put(c16ctx, "k", bytes.NewReader([]byte("previous content")), storage.OverWrite)
+			ffs.writes, ffs.failAt = 0, 1+r.Intn(2)
+		}
+		srcKind := "writerto"
+		if i%2 == 1 {
+			srcKind = "plain"
+		}
+		err := st.Put(c16ctx, "k", c16Source(val, i), storage.OverWrite)
+		got := "err"
+		if err == nil {
+			got = "ok-exact"
+			rd, gerr := st.Get(c16ctx, "k")
+			if gerr != nil {
+				got = "ok-but-absent"
+			} else {
+				b, _ := io.ReadAll(rd)
+				_ = rd.Close()
+				if !bytes.Equal(b, val) {
+					got = fmt.Sprintf("ok-differs:%d-bytes-instead-of-%d", len(b), len(val))
+				}
+			}
+		}
+		ffs.mu.Lock()
+		fired := ffs.writes >= ffs.failAt
+		ffs.mu.Unlock()
+		if !fired {
+			continue
+		}
+		c.w.Case("store=localfs-mem kind=flaky lock=0")
+		c.w.Op(fmt.Sprintf("putw src=%s retry=%v size=%d failwrite=%d keep=%d prior=%v got=%s", srcKind, retry, size, ffs.failAt, ffs.keep, prior, got), "sound")
+		c.w.End()
+		c.w.Count(fmt.Sprintf("flaky-disk:src=%s,retry=%v", srcKind, retry))
+	}
+}
+
 func c16(c *ctx) error {
 	r := c.rng
 	nHist, nConf, nPaging, nRace := 200, 60, 30, 40
@@ -554,6 +645,7 @@ func c16(c *ctx) error {
 			return err
 		}
 	}
+	c16Flaky(c)
 
 	for i := 0; i < nHist; i++ {
 		u := c16Universe(r, 2+r.Intn(11), true)
